@@ -48,7 +48,8 @@ def RD_EXP(pd_pow, pd_psd, pd_psw):
                  per_degree_pch_out_dbm=pd_pow, per_degree_pch_psd=pd_psd, per_degree_pch_psw=pd_psw, per_degree_impairments=const({}),
                  params=obj('<ns>', design_bands=const([]), per_degree_design_bands=const({})))
 for _lab, _sh in (('no per-degree target', (dct(), dct(), dct())),
-                  ('per-degree power and PSD targets', (dct_k({'deg 1': real()}), dct_k({'deg 2': real(), 'deg 3': real()}), dct()))):
+                  ('per-degree power and PSD targets', (dct_k({'deg 1': real()}), dct_k({'deg 2': real(), 'deg 3': real()}), dct())),
+                  ('per-degree slot-width targets', (dct(), dct(), dct_k({'deg 4': real()})))):
   contract('gnpy.core.elements.Roadm.to_json', name=f'gnpy.core.elements.Roadm.to_json[{_lab}]', props=['C17'],
          params={'self': RD_EXP(*_sh)},
          requires=[('one_policy', 'self.target_pch_out_dbm is not None or self.target_psd_out_mWperGHz is not None or '
